@@ -16,11 +16,15 @@ SPEC = {
                    "of the deterministic scheduler, one os/http call per step ('os' and 'net/http' of internal/upload "
                    "rewritten to yielding shims in the scratch copy): random and bounded-context-switch schedules, "
                    "kills after a random call, scripted server answers 200/4xx/5xx/3xx/none, a scripted "
-                   "create-then-read race, and 'eventual' scenarios (no kills, then one further complete run answered "
-                   "200); thorough tier adds the sweep: kill uploader 1 after call k = 1..26 x every request answered "
+                   "create-then-read race, the scripted 'lateunlock' scenario (three runs, two or three weeks to upload: "
+                   "run A's first request fails and A is parked before its second, run B locks the first week and is "
+                   "parked before its request, A runs to its END, run C runs completely, then B's request goes out), "
+                   "and 'eventual' scenarios (no kills, then one further complete run answered "
+                   "200); every run is what the exported Run does with its uploader: Run, then the deferred Close; thorough tier adds the sweep: kill uploader 1 after call k = 1..26 x every request answered "
                    "200 / 404 / 503 / not at all, then uploader 2 runs. After every step local/, upload/ (names, content classes, canonical report sums) and the "
                    "server log are compared with the model run on the same schedule; the C08 oracles are evaluated "
-                   "on the implementation's observations. distinct = distinct case lines, all non-trivial"),
+                   "on the implementation's observations (among them lock_released_by_other: a lock file of upload/ "
+                   "disappears only by a step of the thread whose exclusive creation made it appear). distinct = distinct case lines, all non-trivial"),
     ],
     "technique": "Coq inductive invariants over all interleavings of any number of uploader runs, all kill sets and all "
                  "server-outcome sequences (transition system at file-system/HTTP-call granularity) + lock-step "
@@ -29,7 +33,8 @@ SPEC = {
                   "transition system with one step per os/http call: for EVERY interleaving of ANY number of uploader runs "
                   "(started at any time: re-runs and concurrent runs), every kill set (a killed thread never runs again, its "
                   "lock file stays) and every sequence of server answers (200 / 4xx / other status / no answer): mutual "
-                  "exclusion of the lock-file protocol, at most one acknowledgement per week (hence never two bodies), no "
+                  "exclusion of the lock-file protocol (a lock file disappears only by the unlock step of its live holder: "
+                  "C08_lock_removed_by_holder, C08_lock_kept_by_others), at most one acknowledgement per week (hence never two bodies), no "
                   "request while upload/W.json exists and that file is permanent, the status-dependent disposition of the "
                   "report (own steps by computation; no other thread can remove the report or write the marker while the "
                   "lock is held), the posted body is the content read, and progress without kills (from any state in which "
@@ -54,6 +59,6 @@ SPEC = {
         "no file-system faults other than not-exist / exists",
     ],
     "trusted_base": [],
-    "own_objects": ["theories/Props/C08.vo", "theories/Proofs/UploaderLock.vo", "theories/Proofs/UploaderDisp.vo",
+    "own_objects": ["theories/Props/C08.vo", "theories/Proofs/UploaderLock.vo", "theories/Proofs/UploaderLockOwner.vo", "theories/Proofs/UploaderDisp.vo",
                     "theories/Proofs/UploaderLive.vo"],
 }
